@@ -445,7 +445,7 @@ mod verif_native {
         println!("VERIF-NATIVE-CASES nb_domain_types_enumerated {cases} nontrivial {accepted}");
     }
 
-    /// bound: the atomic type grammar: every keyword, bytes0..=40, uint/int 0..=300 (canonical spelling, no leading zeros), and array
+    /// bound: the atomic type grammar: every keyword, bytes0..=40, uint/int 0..=300 (canonical spelling, no leading zeros), 11 non-ASCII names, and array
     /// suffix combinations up to depth 3 with sizes {none, 0, 1, 18446744073709551615} plus depth 64: parse -> print is
     /// the identity on canonical strings and the parsed kind agrees with the reference grammar
     #[test]
@@ -460,7 +460,9 @@ mod verif_native {
                 _ => false,
             }
         }
-        let mut bases: Vec<String> = ["bool", "address", "string", "bytes", "Person", "uint", "int", "byte", "uint8x", "Bool", ""].iter().map(|s| s.to_string()).collect();
+        let mut bases: Vec<String> = ["bool", "address", "string", "bytes", "Person", "uint", "int", "byte", "uint8x", "Bool", "",
+            // non-ASCII names, Unicode numerics, digits after multi-byte characters
+            "\u{e9}1", "Gr\u{f6}\u{df}e2", "\u{b2}", "uint\u{b2}", "\u{661}\u{662}", "bytes\u{661}", "\u{dc}nit8", "\u{540d}\u{524d}", "\u{540d}\u{524d}1", "\u{1f980}8", "a\u{301}9"].iter().map(|s| s.to_string()).collect();
         for n in 0..=40 { bases.push(format!("bytes{n}")); }
         for n in 0..=300 { bases.push(format!("uint{n}")); bases.push(format!("int{n}")); }
         let suffixes = ["", "[]", "[0]", "[1]", "[18446744073709551615]"];
